@@ -155,5 +155,10 @@ Proof. intros [[|]|]; reflexivity. Qed.
 
 Lemma tuple_structured_binding_refuted : tuple_structured_binding_m <> tuple_structured_binding_spec.
 Proof. discriminate. Qed.
+Lemma tuple_converting_ctor_refuted : tuple_converting_ctor_m <> tuple_converting_ctor_spec.
+Proof. discriminate. Qed.
 Lemma get_by_type_refuted : exists p, get_by_type_m p <> get_by_type_spec p.
 Proof. exists true. discriminate. Qed.
+
+Lemma pair_swappable_agrees : forall a b, a <> ECopyOnly -> b <> ECopyOnly -> pair_swappable_m a b = pair_swappable_spec a b.
+Proof. intros a b Ha Hb; destruct a; destruct b; try reflexivity; exfalso; first [apply Ha; reflexivity | apply Hb; reflexivity]. Qed.
